@@ -14,8 +14,8 @@ SHARDS = {"quick": 8, "thorough": 16}
 BUDGET = {"quick": 25, "thorough": 240}
 MIN_CASES = {"quick": 100000, "thorough": 400000}
 EXHAUSTIVE_CLAIM = True
-RULE = ("universe A: 2 schemes x 2 ports x 14 host chains (depth <= 4, multi-label / wildcard / exception suffixes, look-alikes such as a.com.evil.com) x 7 path chains x "
-        "optional query x optional fragment = 1568 URLs, ALL ordered pairs x suffix_aware in {False,True}; thorough adds universe B (other labels, 3-label suffixes, deeper paths). "
+RULE = ("universe A: 2 schemes x 2 ports x 17 host chains (incl. all-hex labels) (depth <= 4, multi-label / wildcard / exception suffixes, look-alikes such as a.com.evil.com) x 8 path chains (incl. an escaped slash) x "
+        "optional query x optional fragment = 2176 URLs, ALL ordered pairs x suffix_aware in {False,True}; thorough adds universe B (other labels, 3-label suffixes, deeper paths). "
         "A case is an ordered pair (u, v, suffix_aware); non-trivial = under(u,v) holds or the stems of u are a prefix of the stems of v or the two share scheme, port and the last host label; "
         "distinct = distinct pair.")
 ASSUMPTIONS = ["under(u,v) computed on the generator's structured records; public suffix by the reference PSL matcher (vf/ref/psl.py)",
@@ -24,8 +24,9 @@ FLOORS = ["under-true", "under-false-prefix-false", "pair-host-ancestor", "pair-
           "suffix-aware-multi-label", "string-prefix-checked"]
 PROBE_FLOORS = ["lru_stems_from_parsed_url"]
 
-HOSTS_A = ["com", "a.com", "b.a.com", "a.com.evil.com", "uk", "co.uk", "a.co.uk", "b.a.co.uk", "lemonde.fr", "lemonde.fr.evil.com", "foo.ck", "x.foo.ck", "www.ck", "a.co"]
-PATHS_A = [(), ("",), ("x",), ("x", ""), ("x", "y"), ("y",), ("x", "y", "z")]
+HOSTS_A = ["com", "a.com", "b.a.com", "a.com.evil.com", "uk", "co.uk", "a.co.uk", "b.a.co.uk", "lemonde.fr", "lemonde.fr.evil.com", "foo.ck", "x.foo.ck", "www.ck", "a.co",
+           "de", "abc.de", "f.abc.de"]  # all-hex labels: must not be mistaken for an IPv6-like special host
+PATHS_A = [(), ("",), ("x",), ("x", ""), ("x", "y"), ("y",), ("x", "y", "z"), ("x%2Fy",)]  # an escaped slash is not a segment boundary
 HOSTS_B = ["org", "w.org", "v.w.org", "compute.amazonaws.com", "h.compute.amazonaws.com", "g.h.compute.amazonaws.com", "amazonaws.com", "s3.amazonaws.com",
            "x.city.kawasaki.jp", "city.kawasaki.jp", "q.kawasaki.jp", "r.q.kawasaki.jp", "1.2.3.4", "localhost", "wx.org", "w.orgx"]
 PATHS_B = [(), ("",), ("p",), ("p", "", "q"), ("p", "q"), ("pq",), ("p", "q", "r", "s"), ("", "p")]
